@@ -54,7 +54,11 @@ def case_st(draw):
             "retune_ref": draw(st.sampled_from([None, 0.2, 5.0])),
             # mode "step": the adapted delta is read after a whole step() with forces of this size (eV/A); with the
             # larger ones the bias |F|*delta/2kT saturates (documented clipping of gamma), which is not delta's business
-            "force": draw(st.sampled_from([0.01, 1.0, 1e3, 1e6, 1e12]))}
+            "force": draw(st.sampled_from([0.01, 1.0, 1e3, 1e6, 1e12])),
+            # atoms of different masses (the adapted delta is a step length before any mass scaling)
+            "masses": [draw(fl(1, 200)) for _ in range(4)],
+            # end-to-end forces scheme: committee members that disagree on the sign of the force (coefficient s/s = 1)
+            "mixed_sign": draw(st.integers(0, 3)) == 0}
 
 
 def variance(case, r):
@@ -68,6 +72,8 @@ def make(case):
 
     n = case["n"]
     atoms = Atoms("Cu" * n, positions=[[i * 2.0, 0.0, 0.0] for i in range(n)], cell=[10, 10, 10])
+    if case.get("masses"):
+        atoms.set_masses(case["masses"][:n])
     with warnings.catch_warnings():
         warnings.simplefilter("ignore")
         mc = AdaptiveForceBias(atoms, min_delta=case["min"], max_delta=case["max"], temperature=300.0, scheme=case["scheme"],
@@ -108,6 +114,8 @@ def delta_for(case, mc, atoms, v):
                 atoms.calc = types.SimpleNamespace(results={"energies": np.array([e0 - t, e0 + t])})
             else:
                 s = min(v, 0.999)  # two-member symmetric committee reaches coefficients below 1
+                if case.get("mixed_sign") and v == 1.0:
+                    s = 3.0  # members mu*(1+s), mu*(1-s) of opposite sign: std = s|mu|, mean|F| = s|mu|, coefficient exactly 1
                 mu = case["mu"] * case["sign"]
                 base = np.full((n, 3), mu)
                 atoms.calc = types.SimpleNamespace(results={"forces_comm": np.array([base * (1 + s), base * (1 - s)])})
@@ -121,10 +129,18 @@ def run_case(case):
     try:
         mc, atoms = make(case)
         v1, v2 = sorted([variance(case, case["r1"]), variance(case, case["r2"])])
+        mixed = False
         if case["mode"] == "end2end" and case["scheme"] == "forces":
             v1, v2 = min(v1, 0.999), min(v2, 0.999)
+            if case.get("mixed_sign"):
+                v2, mixed = 1.0, True  # realised by two members of opposite sign (see delta_for)
         d1 = delta_for(case, mc, atoms, v1)
         d2 = delta_for(case, mc, atoms, v2)
+        d_ref = None
+        if mixed:
+            # the same coefficient handed over directly must give the same delta
+            mc3, atoms3 = make(case)
+            d_ref = delta_for(dict(case, mode="direct", shape="array"), mc3, atoms3, 1.0)
     except Exception as exc:
         return {"labels": labels + ["raised"], "nontrivial": True, "violation": {"kind": f"raises:{type(exc).__name__}", "detail": f"{case}: {exc!r}"[:400]}}
     ulp = 4 * np.spacing(hi)
@@ -139,6 +155,10 @@ def run_case(case):
         out["violation"] = {"kind": kind, "detail": f"{desc}: {detail}"}
         return out
 
+    if d_ref is not None:
+        labels.append("committee-signs-disagree")
+        if d_ref.shape != d2.shape or np.any(np.abs(d_ref - d2) > 1e-6 * hi):
+            return viol("sign-disagreeing-committee", f"members mu*(1+3), mu*(1-3) have std/mean|F| = 1 exactly; delta {d2.tolist()} differs from the delta for coefficient 1, {d_ref.tolist()}")
     if case["mode"] == "nodata":
         if not np.all(np.abs(d1 - mid) <= 1e-12 * max(abs(mid), 1e-300)):
             return viol("no-committee-data", f"delta={d1.tolist()} without committee data, expected the midpoint {mid!r}")
